@@ -47,6 +47,10 @@ def scalar_binop(op, a, b):
     if op == "Sub":
         return a - b
     if op == "Mult":
+        # (x / d) * d  ->  x   (exact in the reals; d != 0 or the division already raised)
+        for p, q in ((a, b), (b, a)):
+            if z3.is_app_of(p, z3.Z3_OP_DIV) and p.num_args() == 2 and z3.eq(p.arg(1), q):
+                return p.arg(0)
         return a * b
     if op == "FloorDiv":
         if both_int:
